@@ -1,5 +1,6 @@
 """AST interpreter over symbolic values (statements, expressions, calls, loops, exceptions)."""
 import ast
+from os import environ as _os_env
 import builtins
 import inspect
 import types
@@ -42,6 +43,10 @@ class Interp:
         return self.frames[-1]
 
     def raise_py(self, cls, *args):
+        if _os_env.get('PYVC_TRACE_RAISE') == cls.__name__:
+            import traceback
+            traceback.print_stack(limit=8)
+            print('  at line', getattr(getattr(self, 'cur_node', None), 'lineno', '?'), 'of', self.fr.fn_name)
         raise PyRaise(VExc(cls, args, implicit=True))
 
     def truthy(self, v):
@@ -260,6 +265,8 @@ class Interp:
                     v = self.ctx.empty_dict(ty)
                 elif isinstance(ty, ListT):
                     v = VList(ty.t, [z3.Empty(so) for s_, so in ty.comps()])
+                elif isinstance(ty, _v._TChunks):
+                    v = VChunks(z3.StringVal(''))
             if isinstance(v, (VList, VDict)) and v.origin is None:
                 v.origin = ('local',)
             self.fr.locals[t.id] = v
@@ -545,7 +552,7 @@ class Interp:
             raise OutOfSubset('for loop #%d in %s over a symbolic sequence without invariant'
                               % (no, self.fr.fn_name))
         enum = isinstance(it, VEnum)
-        lst = self.as_list(it.lst if enum else it)
+        lst = it if isinstance(it, VZip) else self.as_list(it.lst if enum else it)
         kname = spec.ghost_index or '_k%d' % no
         self.fr.locals[kname] = VInt(0)
         self.fr.locals['_seq%d' % no] = lst
@@ -555,7 +562,10 @@ class Interp:
 
         def pre_body():
             k = self.fr.locals[kname]
-            item = self.list_nth(lst, k.term)
+            if isinstance(lst, VZip):
+                item = VTuple([self.list_nth(l, k.term) for l in lst.lists])
+            else:
+                item = self.list_nth(lst, k.term)
             dv = getattr(lst, 'dictview', None)
             if dv is not None:
                 # elements of a key sequence are keys of the dict
@@ -612,6 +622,9 @@ class Interp:
             for q, t in zip(lst.seqs, terms):
                 self.ctx.assume(z3.Implies(z3.And(idx >= 0, idx < z3.Length(q)), q[idx] == t))
             return self.ctx.load(lst.t.wrap(terms))
+        for q0, fn in self.ctx.elem_facts:
+            if lst.seqs and q0.eq(lst.seqs[0]):
+                self.ctx.assume(z3.Implies(z3.And(idx >= 0, idx < z3.Length(q0)), fn(idx, q0[idx])))
         return self.ctx.load(lst.t.wrap([q[idx] for q in lst.seqs]))
 
     def list_index(self, lst, i):
@@ -1120,6 +1133,9 @@ class Interp:
                 self.raise_py(KeyError)
             return ctx.dict_get(obj, k)
         if isinstance(obj, VPyConst) and isinstance(obj.obj, dict):
+            r = self.models.const_lookup(self, obj, idx)
+            if r is not None:
+                return r
             return self.const_dict_lookup(obj.obj, idx)
         if isinstance(obj, VPyConst) and isinstance(obj.obj, (list, tuple)) and isinstance(idx, VInt) and self.is_concrete_int(idx):
             return const_to_v(obj.obj[self.concrete_int(idx)])
@@ -1377,6 +1393,8 @@ class Interp:
             return v if isinstance(v, VInt) else VInt(z3.If(v.term, 1, 0))
         if isinstance(ty, _v._TStr) and isinstance(v, VStr): return v
         if isinstance(ty, _v._TBytes) and isinstance(v, VBytes): return v
+        if isinstance(ty, _v._TChunks) and isinstance(v, VChunks): return v
+        if isinstance(ty, _v._TChunks) and isinstance(v, VEmptyList): return VChunks(z3.StringVal(''))
         if isinstance(ty, Ref) and isinstance(v, VRef): return v
         if isinstance(ty, ListT) and isinstance(v, VList): return v
         if isinstance(ty, DictT) and isinstance(v, VDict): return v
